@@ -49,12 +49,12 @@ def main():
         },
         "engines": [
             {"name": "ckb-facts", "path": "driver/", "kind_free_text": "rustc_private driver: dumps mir_built CFGs, resolved callees, ADT/impl tables per workspace crate", "serves_properties": [c["property_id"] for c in checks]},
-            {"name": "rules", "path": "engine/ rules/", "kind_free_text": "python rule engine: call graph, dominators, must-call summaries, provenance, comparison truth tables, effect sets, frozen decision tables (TABLE) and anchor-file fingerprints (FINGERPRINT)", "serves_properties": [c["property_id"] for c in checks]},
+            {"name": "rules", "path": "engine/ rules/", "kind_free_text": "python rule engine: call graph, dominators, must-call summaries, provenance, comparison truth tables, effect sets, count-aware effect-site allow-lists (EFFECTSITES), panicking-arithmetic inventory (NOOVERFLOW), frozen decision tables (TABLE) and anchor-file fingerprints (FINGERPRINT)", "serves_properties": [c["property_id"] for c in checks]},
             {"name": "selftest", "path": "selftest/", "kind_free_text": "mutation twins applied to a scratch copy; asserts each rule fires on its broken twin and is silent on behaviour-preserving twins (static: runs the analyser, never CKB)", "serves_properties": [c["property_id"] for c in checks]},
         ],
         "checks": checks,
         "not_applicable": na,
-        "notes": "All checks are static analysis of /repo's current working tree (facts re-extracted whenever any .rs/.toml/.lock/.mol file changes). known_findings.json lists the recorded open findings (F4: seven ChainStore accessors without a freezer fallback, printed as KNOWN-FINDING lines by check C10) F10: pool aggregates when a parent arrives after its children, printed by C11) and the defects repaired by fix: commits in /repo (DESIGN.md section 6).",
+        "notes": "All checks are static analysis of /repo's current working tree (facts re-extracted whenever any .rs/.toml/.lock/.mol file changes). known_findings.json lists the recorded open findings (F4: seven ChainStore accessors without a freezer fallback, printed as KNOWN-FINDING lines by check C10; F10: pool aggregates when a parent arrives after its children, printed by C11; F24: load_data_as_code registers zero padding as cell content, printed by C05) and the 24 defects repaired by fix: commits in /repo (DESIGN.md section 6).",
     }
     json.dump(m, open(os.path.join(V, "MANIFEST.json"), "w"), indent=1)
     print("checks:", [c["property_id"] for c in checks], "na:", [n["property_id"] for n in na])
